@@ -1,11 +1,13 @@
 (* C07 -- top-level blocks are parsed independently.  Proved so far: the per-line offset tables
    carry nothing across a line end - the line scanner is a left fold that splits at any point,
-   and after a line feed it is back in its initial mode (indentation counters zero, next line
-   starting right after the LF).  That no rule leaks container context, tight flags or parentType
+   after a line feed it is back in its initial mode (indentation counters zero, next line
+   starting right after the LF), and for EVERY A (newline-terminated) and B the tables of
+   A + blank line + B are the tables of A followed by the tables of B moved by len A + 1
+   (C07_tables_concat): the block loop starts B on exactly the rows it would see alone.  That no rule leaks container context, tight flags or parentType
    into the next top-level block is decided on the implementation (concatenation law) and
    through the correspondence.  Only statements and [exact]. *)
 From MD Require Import Base.Py Base.Str Base.Opt Model.Token Model.Utils Model.StateBlock Model.Block
-     Lemmas.BlockLemmas.
+     Lemmas.BlockLemmas Lemmas.ScanLemmas.
 
 Theorem C07_line_scan_splits :
   forall n a s pos b, scan_loop n s pos (a ++ b) = scan_loop n (scan_loop n s pos a) (pos + len a) b.
@@ -20,3 +22,22 @@ Theorem C07_scanner_forgets_at_lf :
     /\ sc_tS s' = sc_indent s :: sc_tS s /\ sc_sC s' = sc_offset s :: sc_sC s.
 Proof. exact scan_step_lf. Qed.
 Print Assumptions C07_scanner_forgets_at_lf.
+
+(* the line tables of  A LF B  (A = a LF newline-terminated; the extra LF is the blank line):
+   those of A, then those of B with offsets moved by  len A + 1 ; the sentinel row of A doubles
+   as the row of the blank line; lineMax adds up.  No side condition on a or b. *)
+Theorem C07_tables_concat :
+  forall a b env toks env1 toks1 env2 toks2,
+    let A := a ++ [10] in
+    let d := len A + 1 in
+    let s := state_init (A ++ [10] ++ b) env toks in
+    let sa := state_init A env1 toks1 in
+    let sb := state_init b env2 toks2 in
+    b_bMarks s = b_bMarks sa ++ map (Z.add d) (b_bMarks sb)
+    /\ b_eMarks s = b_eMarks sa ++ map (Z.add d) (b_eMarks sb)
+    /\ b_tShift s = b_tShift sa ++ b_tShift sb
+    /\ b_sCount s = b_sCount sa ++ b_sCount sb
+    /\ b_bsCount s = b_bsCount sa ++ b_bsCount sb
+    /\ b_lineMax s = b_lineMax sa + 1 + b_lineMax sb.
+Proof. exact tables_concat. Qed.
+Print Assumptions C07_tables_concat.
